@@ -70,6 +70,9 @@ def _build_meta(d: Defn):
     vals = _values(d)
     S = [State(initial=i, final=f) if vals is None else State(value=vals[j], initial=i, final=f)
          for j, (i, f) in enumerate(d.states)]
+    # index n = a State object that exists but is not declared in the class (`a.to(some_other_state)`): the class's
+    # own states must still all be reachable, whatever else the transitions point at
+    S.append(State("not declared"))
     styles = iter(d.styles)
 
     def tr(sp):
@@ -193,16 +196,19 @@ def oracle(d: Defn):
     if sum(initial) != 1:
         return ["verdict invalid"]
     adj = [[False] * n for _ in range(n)]
+    leaves = [False] * n          # has an outgoing transition, possibly to a State that is not declared in the class
     for s in every:
         if s[0] == "e":
-            adj[s[1]][s[2]] = True
+            leaves[s[1]] = True
+            if s[2] < n:
+                adj[s[1]][s[2]] = True
     for s, pos in bound:
         if s[0] == "a":
             for a in range(min(pos, n)):
                 if not final[a]:
                     adj[a][s[1]] = True
     for a in range(n):
-        if final[a] and any(adj[a]):
+        if final[a] and (any(adj[a]) or leaves[a]):
             return ["verdict invalid"]
     reach = [[adj[a][b] or a == b for b in range(n)] for a in range(n)]
     for k in range(n):
@@ -216,7 +222,7 @@ def oracle(d: Defn):
     i0 = initial.index(True)
     if not all(reach[i0]):
         return ["verdict invalid"]
-    trap = [a for a in range(n) if not final[a] and not any(adj[a])]
+    trap = [a for a in range(n) if not final[a] and not any(adj[a]) and not leaves[a]]
     nopath = []
     if any(final):
         nopath = [a for a in range(n) if not final[a] and not any(reach[a][f] and final[f] for f in range(n))]
